@@ -196,6 +196,12 @@ Qed.
 Lemma clear_change_saved d f : saved (fst (clear_change d f)) = saved d.
 Proof. unfold clear_change. destruct (ahas (live d) f); reflexivity. Qed.
 
+Lemma clear_change_clean d f : clean (fst (clear_change d f)) = clean d.
+Proof. unfold clear_change. destruct (ahas (live d) f); reflexivity. Qed.
+
+Lemma save_push_again_clean d f : clean (fst (save_push_again d f)) = frem f (clean d).
+Proof. reflexivity. Qed.
+
 Lemma clear_change_view d f v g :
   vget (vapply v (snd (clear_change d f))) g =
   if (f =? g) && ahas (live d) f then nonsyn (vget (saved d) f) else vget v g.
@@ -254,8 +260,8 @@ Proof.
   - intros k p. destruct (aget (live d) k); cbn; [|tauto]. intros [<-|[<-|[]]]; reflexivity.
 Qed.
 
-Lemma push_all_again_view fix12a d new v g :
-  vget (vapply v (snd (push_all_again fix12a d new))) g =
+Lemma push_all_again_view0 fix12a d new v g :
+  vget (vapply v (snd (push_all_again fix12a false d new))) g =
   match (if is_nil new || fix12a then aget (live d) g else None) with
   | Some l => l
   | None =>
@@ -267,7 +273,7 @@ Lemma push_all_again_view fix12a d new v g :
     end
   end.
 Proof.
-  unfold push_all_again. cbn [snd]. rewrite vget_vapply, !lastpub_app.
+  unfold push_all_again. cbn [snd]. rewrite app_nil_r. rewrite vget_vapply, !lastpub_app.
   assert (Hrest :
     match match lastpub (flat_map (fun k : file => match aget new k with
                 | Some l => match aget (saved d) k with
@@ -308,8 +314,53 @@ Proof.
   - cbn [lastpub]. exact Hrest.
 Qed.
 
-Lemma push_all_again_state fix12a d new :
-  fst (push_all_again fix12a d new) = {| saved := new; live := live d |}.
+(* ---------- the re-hiding pass of the repaired pushAllDiagnosticsAgain ---------- *)
+Lemma existsb_fmem (g : file) l : existsb (N.eqb g) l = fmem g l.
+Proof. reflexivity. Qed.
+
+Lemma clear_syntax_list_view d l v g :
+  vget (vapply v (flat_map (clear_syntax d) l)) g =
+  if fmem g l && ahas (saved d) g then nonsyn (vget (saved d) g) else vget v g.
+Proof.
+  rewrite vget_vapply, lastpub_flat_map.
+  - rewrite existsb_fmem. destruct (fmem g l); cbn [andb]; [|reflexivity].
+    unfold clear_syntax. destruct (ahas (saved d) g) eqn:E; [|reflexivity].
+    unfold clear_one, push_file_diag, vget. unfold ahas in E. destruct (aget (saved d) g) as [x|]; [|discriminate].
+    cbn [app lastpub fst snd]. rewrite N.eqb_refl. reflexivity.
+  - intros k p. unfold clear_syntax. destruct (ahas (saved d) k); [|intros []].
+    unfold clear_one, push_file_diag. destruct (aget (saved d) k); cbn [app In].
+    + intros [<-|[<-|[]]]; reflexivity.
+    + intros [<-|[]]. reflexivity.
+Qed.
+
+Lemma push_all_again_split fix12a fixun d new :
+  snd (push_all_again fix12a fixun d new) =
+  snd (push_all_again fix12a false d new) ++
+  (if fixun then flat_map (clear_syntax {| saved := new; live := live d; clean := clean d |}) (clean d) else []).
+Proof. unfold push_all_again. cbn [snd]. rewrite app_nil_r, !app_assoc. reflexivity. Qed.
+
+Lemma push_all_again_view fix12a fixun d new v g :
+  vget (vapply v (snd (push_all_again fix12a fixun d new))) g =
+  if fixun && fmem g (clean d) && ahas new g then nonsyn (vget new g) else
+  match (if is_nil new || fix12a then aget (live d) g else None) with
+  | Some l => l
+  | None =>
+    match aget new g, aget (saved d) g with
+    | Some l, None => l
+    | Some l, Some old => if errs_eqb old l then vget v g else l
+    | None, Some _ => []
+    | None, None => vget v g
+    end
+  end.
+Proof.
+  rewrite push_all_again_split, vapply_app. destruct fixun; cbn [andb].
+  - rewrite clear_syntax_list_view. cbn [saved]. destruct (fmem g (clean d) && ahas new g); [reflexivity|].
+    apply push_all_again_view0.
+  - cbn [vapply fold_left]. apply push_all_again_view0.
+Qed.
+
+Lemma push_all_again_state fix12a fixun d new :
+  fst (push_all_again fix12a fixun d new) = {| saved := new; live := live d; clean := clean d |}.
 Proof. reflexivity. Qed.
 
 (* ---------- the invariant that holds for ALL notification streams the server can produce ----------
@@ -330,7 +381,7 @@ Qed.
 Lemma push_all_init_view e g : vget (vapply [] (push_all_init e)) g = vget e g.
 Proof. rewrite vget_vapply, push_all_init_last. unfold vget. destruct (aget e g); reflexivity. Qed.
 
-Lemma tracks_init e : tracks {| saved := e; live := [] |} (vapply [] (push_all_init e)).
+Lemma tracks_init e : tracks {| saved := e; live := []; clean := [] |} (vapply [] (push_all_init e)).
 Proof. intros g. right. left. cbn [saved]. apply push_all_init_view. Qed.
 
 Lemma tracks_clear_change d f v :
@@ -377,10 +428,19 @@ Proof.
   apply N.eqb_eq in E. subst g. destruct (ahas (saved d) f); cbn [andb]; [right; left; reflexivity|exact (H f)].
 Qed.
 
-Lemma tracks_push_all_again fix12a d new v :
-  tracks d v -> tracks (fst (push_all_again fix12a d new)) (vapply v (snd (push_all_again fix12a d new))).
+Lemma tracks_set_clean d c v : tracks d v -> tracks (set_clean d c) v.
+Proof. intros H. exact H. Qed.
+
+Lemma tracks_clear_syntax_list d l : forall v, tracks d v -> tracks d (vapply v (flat_map (clear_syntax d) l)).
 Proof.
-  intros H g. specialize (H g). rewrite push_all_again_view, push_all_again_state. cbn [saved live].
+  induction l as [|f l IH]; intros v H; [exact H|]. cbn [flat_map]. rewrite vapply_app. apply IH.
+  apply tracks_clear_syntax. exact H.
+Qed.
+
+Lemma tracks_push_all_again0 fix12a d new v :
+  tracks d v -> tracks (fst (push_all_again fix12a false d new)) (vapply v (snd (push_all_again fix12a false d new))).
+Proof.
+  intros H g. specialize (H g). rewrite push_all_again_view0, push_all_again_state. cbn [saved live].
   destruct (if is_nil new || fix12a then aget (live d) g else None) as [l|] eqn:El.
   - left. destruct (is_nil new || fix12a); [|discriminate]. unfold vget. rewrite El. reflexivity.
   - destruct (aget new g) as [l|] eqn:En.
@@ -393,6 +453,14 @@ Proof.
     + assert (Hn : vget new g = []) by (unfold vget; rewrite En; reflexivity). rewrite Hn.
       destruct (aget (saved d) g) as [old|] eqn:Eo; [right; left; reflexivity|].
       assert (Ho : vget (saved d) g = []) by (unfold vget; rewrite Eo; reflexivity). rewrite Ho in H. exact H.
+Qed.
+
+Lemma tracks_push_all_again fix12a fixun d new v :
+  tracks d v -> tracks (fst (push_all_again fix12a fixun d new)) (vapply v (snd (push_all_again fix12a fixun d new))).
+Proof.
+  intros H. rewrite push_all_again_split, vapply_app. rewrite push_all_again_state.
+  pose proof (tracks_push_all_again0 fix12a d new v H) as H0. rewrite push_all_again_state in H0.
+  destruct fixun; [|exact H0]. apply tracks_clear_syntax_list. exact H0.
 Qed.
 
 Lemma tracks_remove_saved d f v : tracks d v -> tracks (remove_saved d f) (vapply v (clear_one f)).
